@@ -74,23 +74,35 @@ def peekLine (w : World) : String :=
   | some h =>
     s!"mask={hex5 h.mask} wch={h.wused} pay={h.payloads} fd={bit (h.cell .fileFd != .null)} rsrc={bit (h.cell .rsrcFd != .null)} cc={bit h.codecClose.isSome} hw={bit h.haveWritten} {tail}"
 
+/-- the view of handle i inside a world of several: its own cells, the whole world's holdings -/
+def peekAt (w : Worlds) (i : Nat) : String :=
+  let tail := s!"blocks={w.held .heap} fds={w.held .fd} disk={w.held .disk} leaked={w.a.leakedHeap},{w.a.leakedFd},{w.a.leakedDisk} dfree={w.a.dfree}"
+  match w.get i with
+  | none => s!"mask=closed {tail}"
+  | some h =>
+    s!"mask={hex5 h.mask} wch={h.wused} pay={h.payloads} fd={bit (h.cell .fileFd != .null)} rsrc={bit (h.cell .rsrcFd != .null)} cc={bit h.codecClose.isSome} hw={bit h.haveWritten} {tail}"
+
+/-- lines may start with `@<i>` to name the handle the call is made on (default 0); the world is `Sf.Ledger.Worlds` -/
 def cmd : IO UInt32 := do
   let lines ← readLines
-  let mut w : World := {}
+  let mut w : Worlds := {}
   for line in lines do
     if line.startsWith "== " then
       w := {}
       IO.println line
     else
-      let toks := (line.splitOn " ").filter (· ≠ "")
+      let toks0 := (line.splitOn " ").filter (· ≠ "")
+      let (i, toks) := match toks0 with
+        | t :: rest => if t.startsWith "@" then ((t.drop 1).toString.toNat?.getD 0, rest) else (0, toks0)
+        | [] => (0, [])
       match toks with
       | [] => pure ()
-      | ["peek"] => IO.println (peekLine w)
+      | ["peek"] => IO.println (peekAt w i)
       | _ =>
         match parseOp toks with
         | none => IO.println "bad-op"
         | some op =>
-          let r := step w op
+          let r := stepAt w i op
           w := r.1
           IO.println (if r.2 == -2 then "ret=?" else s!"ret={r.2}")
   return 0
